@@ -31,9 +31,10 @@ Definition digits_value (ds : list Z) : option Z :=
 (* [+-]?[0-9]+ , leading zeros allowed *)
 Definition text_value (t : list Z) : option Z :=
   match t with
-  | 45 :: ds => option_map Z.opp (digits_value ds)
-  | 43 :: ds => digits_value ds
-  | _ => digits_value t
+  | [] => None
+  | c :: ds => if c =? 45 then option_map Z.opp (digits_value ds)
+               else if c =? 43 then digits_value ds
+               else digits_value t
   end.
 (* canonical decimal text: "0", or an optional '-' followed by digits not starting with '0' *)
 Definition canonical_digits (t : list Z) : bool :=
@@ -41,12 +42,10 @@ Definition canonical_digits (t : list Z) : bool :=
   | [] => false
   | d :: r => is_digit d && negb (d =? 48) && forallb is_digit r
   end.
+Definition unsigned_part (t : list Z) : list Z :=
+  match t with c :: r => if c =? 45 then r else t | [] => [] end.
 Definition canonical (t : list Z) : bool :=
-  match t with
-  | [48] => true
-  | 45 :: ds => canonical_digits ds
-  | _ => canonical_digits t
-  end.
+  zlist_eqb t [48] || canonical_digits (unsigned_part t).
 (* the property for one formatted integer *)
 Definition is_decimal_of (n : Z) (t : list Z) : bool :=
   canonical t && match text_value t with Some v => v =? n | None => false end.
@@ -62,7 +61,8 @@ Fixpoint split_first (c : Z) (t : list Z) : list Z * option (list Z) :=
    Denotation: (negative?, N, E) meaning (-1)^neg * N * 10^E. *)
 Definition float_text_value (t : list Z) : option (bool * Z * Z) :=
   let '(mant, ex) := split_first 101 t in
-  let '(neg, m1) := match mant with 45 :: r => (true, r) | 43 :: r => (false, r) | _ => (false, mant) end in
+  let neg := match mant with c :: _ => c =? 45 | [] => false end in
+  let m1 := match mant with c :: r => if (c =? 45) || (c =? 43) then r else mant | [] => [] end in
   let '(ip, fo) := split_first 46 m1 in
   let fp := match fo with Some f => f | None => [] end in
   match digits_value (ip ++ fp), (match ex with Some e => text_value e | None => Some 0 end) with
